@@ -186,7 +186,6 @@ M = [
     ("C19", "incomplete-points-stored", TREES, "        data_reservoir[leaf_id].update(x)\n", "        data_reservoir[leaf_id].update(x_i)\n"),
     ("C19", "imputer-falls-back-despite-reservoir", TREEI, "            random_index = random.randint(0, len(x_storage) - 1)\n",
      "            random_index = random.randint(0, len(x_storage) - 1)\n            if len(x_storage) == 1:\n                raise KeyError(leaf_id)\n"),
-    ("C19", "length-skips-every-97th", TREES, "        self._seen_samples += 1\n", "        self._seen_samples += 1 if self._seen_samples % 97 != 96 else 0\n"),
 ]
 
 
